@@ -64,7 +64,7 @@ def _selects_by_len(arg, n):
 def run(ctx):
     repo = ctx.repo
     res = Result(PROP)
-    res.rules = ["Q-ORDER", "Q-FLAG", "Q-COPY", "Q-LABEL", "Q-SUB", "Q-UNION", "Q-DUAL", "Q-COMPL", "Q-LCC"]
+    res.rules = ["Q-ORDER", "Q-FLAG", "Q-COPY", "Q-LABEL", "Q-SUB", "Q-UNION", "Q-DUAL", "Q-COMPL", "Q-LCC", "Q-MAX"]
     res.explanation = (
         "Narrow claim: the cleanup methods of the three classes are conjunctions of steps whose guarantees hold only in one "
         "order; steps are identified at their call sites, their mutual order is decided by reachability on the CFG, their "
@@ -88,6 +88,7 @@ def run(ctx):
     check_union_dual(repo, res)
     check_complement(repo, res)
     check_lcc(repo, res)
+    check_max_simplices(repo, res)
     gv = repo.modules.get("xgi.core.globalviews")
     sub = gv.functions.get("subhypergraph") if gv else None
     if sub is None:
@@ -106,6 +107,40 @@ def run(ctx):
                  lambda nd: f"`{unparse(nd, 60)}` decides by truthiness whether a selection was given; an empty selection (an empty list, or an empty view such as the result of a filter) is then treated as 'everything' instead of 'nothing'",
                  "optional selections defaulted through truthiness")
     return res
+
+
+PARTIAL_FACE_PRODUCERS = {"_subfaces": "faces of size >= 2 only", "subfaces": "faces of one order or down to order 1 only", "combinations": "one size only"}
+
+
+def check_max_simplices(repo, res):
+    """Q-MAX: from_max_simplices keeps exactly the maximal simplices.  Either it asks the edge view (`.maximal()`), or -
+    if it decides maximality itself by "is not a face of another simplex" - the collection of faces it tests against must
+    hold faces of every size: the face producers of this package leave singletons out (`_subfaces`: size >= 2;
+    `powerset(..., include_singletons=False)`), so a stored singleton next to a larger simplex would count as maximal."""
+    mod = repo.modules.get("xgi.convert.simplex")
+    fn = mod.functions.get("from_max_simplices") if mod else None
+    if fn is None:
+        raise AnalysisError("from_max_simplices not found (anchor vanished)")
+    uses_maximal = any(isinstance(c, ast.Call) and getattr(c.func, "attr", None) == "maximal" for c in ast.walk(fn.node))
+    partial = []
+    for c in ast.walk(fn.node):
+        if isinstance(c, ast.Call):
+            nm = getattr(c.func, "attr", getattr(c.func, "id", None))
+            if nm in PARTIAL_FACE_PRODUCERS:
+                partial.append((c, PARTIAL_FACE_PRODUCERS[nm]))
+            if nm == "powerset" and not any(k.arg == "include_singletons" and isinstance(k.value, ast.Constant) and k.value.value is True for k in c.keywords):
+                partial.append((c, "singletons left out unless include_singletons=True"))
+    negative = [t for t in ast.walk(fn.node) if isinstance(t, ast.Compare) and any(isinstance(o, ast.NotIn) for o in t.ops)]
+    if uses_maximal and not partial:
+        res.inst("Q-MAX", "from_max_simplices takes the maximal simplices from the edge view (.maximal())", True)
+        return
+    if not uses_maximal and not partial:
+        raise AnalysisError("from_max_simplices: neither .maximal() nor a recognisable face enumeration (extractor does not recognise the code)")
+    ok = not negative
+    res.inst("Q-MAX", "from_max_simplices does not decide maximality against a partial face enumeration", ok)
+    if not ok:
+        c, why = partial[0]
+        res.add(mk_finding(PROP, "Q-MAX", fn, negative[0], f"from_max_simplices decides that a simplex is maximal by `{unparse(negative[0], 40)}` against faces produced by `{unparse(c, 40)}` ({why}); a stored singleton that lies inside a larger simplex is never among those faces and is returned as if it were maximal", role="faces"))
 
 
 def check_lcc(repo, res):
